@@ -278,7 +278,14 @@ func (l *Listener) talk(a string, n *com.Packet) (*conn, bool, error) {
 		i     = n.Device.Hash()
 		s, ok = l.s.sessions[i]
 	)
-	if l.s.lock.RUnlock(); !ok {
+	if l.s.lock.RUnlock(); ok && s.ID != n.Device {
+		// The 32bit hash matches the Session of another device: never use that
+		// Session, the sender is unregistered (and cannot register under this hash).
+		if ok = false; n.ID == SvHello {
+			return nil, false, ErrMalformedPacket
+		}
+	}
+	if !ok {
 		if n.Empty() && n.ID == SvHello {
 			if cout.Enabled {
 				l.log.Error("[%s:%s] %s: Received an empty hello Packet!", l.name, n.Device, a)
@@ -377,7 +384,14 @@ func (l *Listener) talkSub(a string, n *com.Packet, o bool) (connHost, uint32, *
 		i     = n.Device.Hash()
 		s, ok = l.s.sessions[i]
 	)
-	if l.s.lock.RUnlock(); !ok {
+	if l.s.lock.RUnlock(); ok && s.ID != n.Device {
+		// The 32bit hash matches the Session of another device: never use that
+		// Session, the sender is unregistered (and cannot register under this hash).
+		if ok = false; n.ID == SvHello {
+			return nil, 0, nil, ErrMalformedPacket
+		}
+	}
+	if !ok {
 		if n.ID != SvHello {
 			if cout.Enabled {
 				l.log.Warning("[%s:%s/M] %s: Received a non-hello Packet from a unregistered client!", l.name, n.Device, a)
